@@ -206,6 +206,13 @@ def run(tier):
             for i in range(2):
                 want_sp[int(str(i) * legs[1] or '0', 2), int(str(i) * legs[0] or '0', 2)] = 1
             suite.identity('Spider%s' % (legs,), entries(mat(sp.eval())), entries(want_sp), functions=['tensor.Spider.__init__'])
+        # a numeric bubble whose function returns values of different python types on different entries
+        nv = tensor.Box('nv', Dim(2), Dim(3), [0, 1, 2, 4, 0, 5])
+        nb = nv.bubble(func=lambda t: 1 / t if t else 0)
+        suite.fact('Bubble.eval.numeric', [complex(e) for e in numpy.array(nb.eval().array).flatten()]
+                   == [0, 1, .5, .25, 0, .2],
+                   what='bubbles apply their function to every entry, whatever type the first entry returns',
+                   functions=['tensor.Tensor.map', 'tensor.Functor.__call__'])
         bub = v.bubble(func=lambda t: t ** 2 + 1)
         suite.identity('Bubble.eval', entries(mat(bub.eval())), [z ** 2 + 1 for z in arrays[s]], extra=syms,
                        functions=['tensor.Functor.__call__', 'tensor.Bubble.__init__'],
